@@ -40,6 +40,7 @@ Inductive aexp :=
 | ALet (x : name) (e body : aexp)
 with bexp :=
 | BLit (b : bool)
+| BVar (x : name)
 | BEq (a b : aexp) | BNe (a b : aexp)
 | BAnd (a b : bexp) | BOr (a b : bexp) | BNot (a : bexp).
 
@@ -58,6 +59,14 @@ Record ctx_table := {
   ct_ip_name : name;                           (* instruction_pointer_register_name() *)
   ct_sp_acc : aexp;                              (* MinidumpContext::get_stack_pointer arm (whole body) *)
   ct_ip_acc : aexp;                              (* MinidumpContext::get_instruction_pointer arm (whole body) *)
+  (* MinidumpContext dispatch arms for this variant, as expressions over the forwarded CpuContext call:
+     [AVar v_ga] stands for `ctx.get_register_always(reg)`, [BVar v_iv] for `ctx.register_is_valid(reg, &self.valid)` *)
+  ct_md_get : aexp;                              (* MinidumpContext::get_register_always arm *)
+  ct_md_valid : bexp;                            (* MinidumpContext::get_register: the arm of `let valid = match ..` *)
+  ct_md_filter : bexp;                           (* MinidumpContext::valid_registers: the arm of the filter closure *)
   ct_fields : list (name * Z * Z);               (* the struct's integer fields: (name, element width, array length or -1) *)
   ct_gpr : list name                           (* MinidumpContext::general_purpose_registers arm (REGISTERS of the named type) *)
 }.
+
+Definition v_ga : name := [36; 103; 97].   (* "$ga" *)
+Definition v_iv : name := [36; 105; 118].  (* "$iv" *)
